@@ -1,25 +1,33 @@
 #!/bin/bash
 # usage: tools/try_seed.sh <prop> <dir with patch.diff demo.sh meta.json> [tier] [extra props to run...]
-# Confirms a seeded change in a scratch worktree of /repo HEAD (compiles, suite as baseline, demo discriminates)
-# and runs ./check <prop> against it (VERIF_REPO). Prints a summary; exit 0 = detected.
+# Confirms a seeded change in a scratch worktree of /repo HEAD (patch applies, compiles, suite as baseline,
+# demo exits 0 without and non-zero with the change), runs ./check <prop> against it (VERIF_REPO) and stores
+# everything under /verif/seeded/<prop>-<name>/ (patch.diff, demo files, meta.json, confirm.txt).
 set -u
-PROP=$1; DIR=$2; TIER=${3:-quick}; shift 3 2>/dev/null || shift $#
+PROP=$1; DIR=$2; TIER=${3:-quick}; shift; shift; shift 2>/dev/null
 export GOFLAGS=-mod=mod GOPROXY=off GOSUMDB=off GOTOOLCHAIN=local
-WT=/tmp/try/$PROP-$(basename $DIR)-$$
-mkdir -p /tmp/try
+NAME=$(basename $DIR)
+WT=/tmp/try/$PROP-$NAME-$$
+OUT=/verif/seeded/$PROP-$NAME
+mkdir -p /tmp/try $OUT
+cp -r $DIR/patch.diff $DIR/demo.sh $DIR/meta.json $OUT/ 2>/dev/null
+for f in $DIR/*.go $DIR/*.pl $DIR/*.sh; do [ -f "$f" ] && cp "$f" $OUT/ ; done
+LOG=$OUT/confirm.txt
+: > $LOG
 git -C /repo worktree add --detach $WT HEAD -q || exit 2
 cleanup() { git -C /repo worktree remove --force $WT >/dev/null 2>&1; }
 trap cleanup EXIT
-echo "== demo on unchanged tree"; (bash $DIR/demo.sh $WT >/tmp/try/demo0.log 2>&1; echo "exit $?")
+echo "repo HEAD: $(git -C /repo rev-parse --short HEAD)   verif HEAD: $(git -C /verif rev-parse --short HEAD)" >> $LOG
+(bash $DIR/demo.sh $WT >/tmp/try/demo0.log 2>&1); D0=$?
+echo "demo.sh on unchanged tree: exit $D0" | tee -a $LOG
 git -C $WT checkout -q -- . ; git -C $WT clean -fdq
-if ! git -C $WT apply $DIR/patch.diff; then echo "PATCH DOES NOT APPLY"; exit 3; fi
-echo "== build"; (cd $WT/go && go build ./... && go build -tags verif ./... && echo build-ok) || { echo BUILD-FAILS; exit 4; }
-echo "== suite vs baseline"; python3 /verif/tools/baseline_check.py $WT | head -5
-echo "== demo with change"; (bash $DIR/demo.sh $WT >/tmp/try/demo1.log 2>&1; echo "exit $?")
+if ! git -C $WT apply $DIR/patch.diff; then echo "PATCH DOES NOT APPLY" | tee -a $LOG; exit 3; fi
+if (cd $WT/go && go build ./... && go build -tags verif ./...); then echo "build (with and without -tags verif): ok" | tee -a $LOG; else echo "BUILD FAILS" | tee -a $LOG; exit 4; fi
+python3 /verif/tools/baseline_check.py $WT | head -4 | tee -a $LOG
+(bash $DIR/demo.sh $WT >/tmp/try/demo1.log 2>&1); D1=$?
+echo "demo.sh with the change: exit $D1" | tee -a $LOG
 git -C $WT clean -fdq
-RC=1
 for P in $PROP "$@"; do
-  echo "== ./check $P $TIER against the change"
-  (cd /verif && VERIF_REPO=$WT ./check $P $TIER 2>&1 | grep -v "^KNOWN-FINDING" | tail -4 | cut -c1-400)
-  if [ ${PIPESTATUS[0]} -ne 0 ]; then :; fi
+  echo "== VERIF_REPO=<worktree with change> ./check $P $TIER" | tee -a $LOG
+  (cd /verif && VERIF_REPO=$WT ./check $P $TIER 2>&1 | grep -v "^KNOWN-FINDING" | tail -4 | cut -c1-500) | tee -a $LOG
 done
